@@ -10,17 +10,24 @@ RULE = ('sessions with one to three transactions whose qmail-queue stand-in foll
         'after reading everything; killed by a signal after reading everything; die (exit or signal) before reading, after k message bytes, between message and '
         'envelope, after j envelope bytes; message sizes below and above the 64 KiB pipe buffer. After each failed transaction the session continues with RSET / '
         'MAIL / RCPT / DATA. For plans whose observable outcome depends on whether Qsmtpd sees EPIPE or the exit status, the closing reply is canonicalised to '
-        '"4xx or 5xx". non-trivial = a DATA was accepted by the server; distinct by case text')
+        '"4xx or 5xx". "qmail-queue cannot be started": plan entries ns / nh (the program exits at once; with qqexec=0 $QMAILQUEUE is not executable and the child ends in _exit(120)) '
+        'with the schedule of queue_init()\'s waitpid(WNOHANG) forced by the harness to "sees the dead child" (451 to DATA, no 354) resp. "misses it" (354, EPIPE at the Received: header); '
+        'DATA repeated inside the same transaction after such a refusal, payloads starting with the dot, an empty line or a read error. non-trivial = a DATA was accepted by the server; distinct by case text')
 TRUSTED_BASE = TRUSTED_COMMON
 ASSUMPTIONS = ASSUMPTIONS_COMMON + [
     'abstract fault model: the k-th qmail-queue invocation either reads everything and exits 0 / exits non-zero / is killed, or dies early so that a write fails; '
-    'EPIPE delivery with SIGPIPE blocked, the WNOHANG race in queue_init and waitpid decoding are exercised by the harness, not proved',
+    'EPIPE delivery with SIGPIPE blocked and waitpid decoding are exercised by the harness, not proved; whether queue_init()\'s waitpid(WNOHANG) sees a child that dies '
+    'at once is a race between two processes: the model has both outcomes (QQ_nostart / QQ_die_hdr, chosen by the oracle), the harness forces one per invocation '
+    '(harness/session/wraps.c: __wrap_waitpid waits for the child\'s exit with WNOWAIT and then asks for real or answers 0); pipe() / fork() failure gives the same '
+    'reply and return value as the seen death and is the same oracle outcome (QQ_nostart), it is not produced in the runs',
 ]
 LEVEL_TEXT = ('Coq theorem for all oracles (in particular all qmail-queue behaviours per invocation) and all client byte streams: between the 354 and the end of the '
               'transaction nothing else is sent, a hand-off and the closing 250 occur only for an invocation that read everything and exited 0, every other '
               'outcome ends in 4xx/5xx, and in both cases sender and recipients are discarded (so a following transaction starts empty: C08). '
+              'If qmail-queue cannot be started (queue_init() fails) DATA gets no 354 at all (C03_data_needs_queue_start) but 451, with nothing else changed (C03_queue_not_started); '
+              'if it dies between queue_init() and the first write, that is one more early death behind the 354. '
               'Tied to the binary by whole-program runs with a fault-injecting qmail-queue stand-in.')
-LEVEL_NOTE = 'Partial for the runtime: which of EPIPE / exit status Qsmtpd observes for an early death is decided by the kernel; the model merges both into "not 2xx".'
+LEVEL_NOTE = 'Deviation from the wording: when queue_init() fails the transaction is NOT discarded (DATA is refused with 451 before anything was sent, sender and recipients stay, DATA may be repeated); stated as it is in C03_queue_not_started. Partial for the runtime: which of EPIPE / exit status Qsmtpd observes for an early death is decided by the kernel; the model merges both into "not 2xx".'
 TECHNIQUE = 'Coq proof of a queue-discipline state machine over the session trace (part of the simulation); fault-injecting qmail-queue stand-in in the whole-program differential run'
 DESIGN_REF = 'DESIGN.md section 5, C03'
 
